@@ -805,7 +805,14 @@ def reduce_case(rec, doc):
 
 
 def run(ctx):
-    st = vlib.proof_stage(ctx, "C05", PROOF_TARGETS, PROOF_FILES, slices=["ir"])
+    st = vlib.proof_stage(ctx, "C05", PROOF_TARGETS + ["TypifyModel.Proofs.Tagging"], PROOF_FILES + ["Proofs/Tagging.lean"], slices=["ir", "tag"])
+    # which tagging mode, tag, content member and variant names a union gets: enums.rs against Model/Tagging.lean (M0)
+    import tagstage
+    tstats, tdis = tagstage.stage(ctx, ctx.tier == "thorough") if st["driver_ok"] else ({"ran": False}, [])
+    ctx.log("union shape M0: %s disagreements=%d" % (tstats, len(tdis)))
+    if tdis:
+        st["broken"].append("correspondence M0 (convert_one_of / enums.rs tagging detection vs Model/Tagging.lean) disagrees on %d of %d requests, first: %s"
+                            % (len(tdis), tstats.get("requests", 0), json.dumps(tdis[0])[:600]))
     if st["proof_ok"]:
         aok, ax = vlib.audit(ctx, "C11")          # FromStr/TryFrom = Deserialize is C11's theorem set
         st.setdefault("axioms", {}).update(ax)
@@ -997,7 +1004,7 @@ def run(ctx):
     samples = [x.brief() for x in ([q for q in recs if q.kind == "length" and q.verdict is False][:2] +
                                    [q for q in recs if q.kind in ("tag", "required", "enum") and q.verdict is False][:3] + ev["survivors"][:2])]
     descr = gen.merge_descriptions([gen.describe(docs[c.tag]) for c in bc if c.compiled])
-    cov = {"obligations": st["obligations"], "discharged": st["discharged"],
+    cov = {"union_shape_M0": tstats, "obligations": st["obligations"], "discharged": st["discharged"],
            "checker_cmd": "cd /verif/lean && lake build TypifyModel.Proofs.C05 && lake env lean TypifyModel/Audit/C05.lean && lake env lean TypifyModel/Audit/C11.lean",
            "trusted_base": vlib.TRUSTED_BASE + [
                "serde_derive/serde_json/regress behaviour is modelled (Model/Serde.lean), tied by M3 to the compiled generated code",
